@@ -5,6 +5,8 @@ import GqlgenVerif.Lemmas.StreamMp
 import GqlgenVerif.Gen.StreamFmt
 import GqlgenVerif.Model.StreamLoopGen
 import GqlgenVerif.Lemmas.StreamLoop
+import GqlgenVerif.Lemmas.StreamGuard
+import GqlgenVerif.Gen.StreamGuard
 /-!
 # C12 — streamed HTTP responses (SSE, multipart/mixed) are well-framed under any timing
 -/
@@ -399,6 +401,91 @@ example : delivered canonNext canonSseLoop true [[0x7B, 0x7D]] (some [0x5B, 0x5D
   decide
 
 end Loop
+
+/-! ## who ends the exchange: the request context ends on the SERVER side, the client keeps reading
+
+`go/extract/streamguard.go` regenerates the statements of `sseConnection.write` / `close` / `keepAlive`,
+the func literal of `Do`'s last `c.write`, the early return of the aggregator's `flush`, the arms of its
+ticker goroutine and `Done` (`Gen/StreamGuard.lean`). The statement of C12 quantifies over the payloads an
+operation PRODUCES: a deadline middleware or a shutdown that ends the request context does not excuse the
+transport from delivering what the operation still produces, nor from ending the stream (`complete` /
+closing delimiter) - the client is connected and reading. -/
+section Guard
+open GqlgenVerif.StreamGuard GqlgenVerif.StreamLoop
+
+/-- `sseConnection.write` refuses to write iff the connection is `closed` - whatever the state of the
+    request context (regenerated statement list) -/
+theorem sse_write_gen : ∀ closed ctxDone : Bool, reaches closed ctxDone Gen.StreamGuard.sseWrite = !closed := by
+  intro c d; cases c <;> cases d <;> decide
+
+/-- its shape: lock, deferred unlock, one guard, the write, the flush -/
+theorem sse_write_shape : ∃ g, Gen.StreamGuard.sseWrite = [.lock, .deferUnlock, .retIf g, .run, .flush] := ⟨_, rfl⟩
+
+/-- `close` sets `closed` and flushes under the lock; the keep-alive goroutine stops on `ctx.Done()` and
+    otherwise only pings through `write`; the last `c.write` of `Do` writes `complete` and sets `closed`
+    in the same critical section; `defer c.close()` -/
+theorem sse_goroutines_gen :
+    Gen.StreamGuard.sseClose = canonClose ∧ Gen.StreamGuard.sseKeepAlive = canonKeepAlive ∧
+    Gen.StreamGuard.sseComplete = canonComplete ∧ Gen.StreamGuard.sseCloseDeferred = true := by decide
+
+/-- the early return of `multipartResponseAggregator.flush` is taken iff nothing is held -/
+theorem mp_flush_guard_gen : ∀ initNil noDeferred : Bool,
+    Gen.StreamGuard.mpFlushGuard.eval initNil noDeferred = (initNil && noDeferred) := by
+  intro a b; cases a <;> cases b <;> decide
+
+/-- ... which is the early return of the model's `Agg.flush` -/
+theorem mp_flush_guard_model (a : Agg) :
+    Gen.StreamGuard.mpFlushGuard.eval a.initial.isNone a.defers.isEmpty = true → a.flush = a := by
+  intro h
+  rw [mp_flush_guard_gen] at h
+  simp [Agg.flush, h]
+
+/-- the aggregator's goroutine returns on `done` and otherwise only flushes; `Done` = signal, then the
+    final flush; no context anywhere in `Add` / `flush` / `Done` / the goroutine: the end of the request
+    context cannot change what the aggregator writes (the multipart theorems need no cancellation step) -/
+theorem mp_goroutines_gen :
+    Gen.StreamGuard.mpTicker = canonTicker ∧ Gen.StreamGuard.mpDone = canonDone ∧
+    Gen.StreamGuard.mpAggUsesCtx = false := by decide
+
+/-- the chunks written under a schedule WITH cancellations of the request context are those of the same
+    schedule without them -/
+theorem sse_cancel_chunks (ka : Bool) (ps : List Bytes) (sched : List CStep) :
+    sseCancelChunks Gen.StreamGuard.sseWrite ka ps sched = sseChunks ka ps (erase sched) :=
+  cancel_chunks _ sse_write_gen ka ps sched
+
+/-- the machine the driver runs on every observed schedule (chunks kept newest first, so that a ping storm
+    of tens of thousands of steps stays linear) writes exactly the chunks of the model -/
+theorem sse_driver_runs_model (ka : Bool) (ps : List Bytes) (sched : List CStep) :
+    sseCancelChunksR Gen.StreamGuard.sseWrite ka ps sched = sseCancelChunks Gen.StreamGuard.sseWrite ka ps sched :=
+  cancel_chunks_rev _ ka ps sched
+
+/-- **sse_cancel_parses** — for every operation, every keep-alive setting and every interleaving of the
+    response loop, keep-alive ticks and CANCELLATIONS OF THE REQUEST CONTEXT (before, between, after the
+    payloads): every response of the operation is delivered once, in order, and the stream ends with one
+    `complete` -/
+theorem sse_cancel_parses (ka : Bool) (good : List Bytes) (fin : Option Bytes) (sched : List CStep)
+    (h : ∀ p ∈ wanted good fin, OneLine p) :
+    sseSpec (wanted good fin)
+      (parseSSE (sseCancelStream genSse Gen.StreamGuard.sseWrite ka (genSseDelivered good fin) sched)) = true := by
+  have := sse_op_parses ka good fin (erase sched) h
+  rw [sseOpStream, sseStream] at this
+  rw [sseCancelStream, sse_cancel_chunks]
+  exact this
+
+/-- why the guard must not look at the request context: with `if c.closed || c.ctx.Err() != nil { return }`
+    a cancellation after the first of two payloads loses the second payload and `complete` -/
+theorem ctx_guard_witness :
+    sseSpec [[0x7B, 0x7D], [0x5B, 0x5D]]
+      (parseSSE (sseCancelStream canonSse [.lock, .deferUnlock, .retIf (.or .closed .ctxDone), .run, .flush] true
+        [[0x7B, 0x7D], [0x5B, 0x5D]] [.main, .cancel])) = false := by
+  decide
+
+/-- not vacuous: a cancellation between two payloads, pings around it -/
+example : sseSpec [[0x7B, 0x7D], [0x5B, 0x5D]]
+    (parseSSE (sseCancelStream canonSse canonWrite true [[0x7B, 0x7D], [0x5B, 0x5D]] [.tick, .main, .cancel, .tick])) = true := by
+  decide
+
+end Guard
 
 /-! ## writes are serialised (syntactic lock discipline, read off the source on every run) -/
 
